@@ -22,6 +22,8 @@ def check(ctx):
     rep.floor("loops reachable from the decoders", nloops, 27)
     rep.floor("input-driven loops certified by the scanner measure (L2)", lr.counts["L2"], 14)
     rep.floor("finite-producer loops (L1)", lr.counts["L1"], 10)
+    from rules import streams as _st
+    _st.check_iterator_fused_on_error(ctx, rep)
     n = eofstores.check(ctx, rep)
     rep.floor("stores to Scanner.is_eof", n, 3)
     sccs = recursion.check(ctx, E, rep, decoder=True)
@@ -36,7 +38,7 @@ def check(ctx):
     return ("Decoders analysed as a whole program: R-PANIC over the %d bodies reachable from %d Zinc and Hayson decoder entry points (%d sites); "
             "R-LOOP: %d loops, each with a termination certificate - %d by an abstract interpreter over the scanner state (byte sets x eof x token x "
             "measure = stream+peek buffer+!eof; every way round a loop must strictly decrease the measure, for every reader behaviour including "
-            "I/O errors and any chunking), %d by a finite std/serde producer on every cycle, %d by visited sets; R-REC: every call-graph cycle has a "
+            "I/O errors and any chunking), %d by a finite std/serde producer on every cycle, %d by visited sets; T-FUSE: the lazy row iterator yields nothing after an error (so draining it terminates); R-REC: every call-graph cycle has a "
             "depth guard, is bounded by serde_json's recursion limit, or descends structurally over an already-built value." % (
                 len(reach), len(E), nsites, nloops, lr.counts["L2"], lr.counts["L1"], lr.counts["L3"]))
 
